@@ -7,9 +7,11 @@
 -/
 import Rox.Props.C09
 import Rox.Parse
+import Rox.Generated
+import Rox.Lemmas.TokSpec
 
 namespace Rox.Props.C01
-open Rox
+open Rox Rox.Lemmas
 
 /-- Every decoded character is 1 to 4 bytes wide. -/
 theorem decodeChar_width (l : Bytes) (c w : Nat) (h : decodeChar l = some (c, w)) : 1 ≤ w ∧ w ≤ 4 := by
@@ -124,5 +126,38 @@ parse_content`) happens only after a successful `inc_depth`, i.e. at detector de
 builder one level down is entered at most 10 levels deep. -/
 theorem reentry_needs_depth (ld : LD) (ld' : LD) (h : ld.incDepth = some ld') : ld.depth < 10 := by
   unfold LD.incDepth at h; split at h <;> simp_all
+
+/-- The facts about the character-class tables that the tokenizer's control flow relies on hold of
+the tables extracted from the current build (re-checked whenever `Generated.lean` changes). -/
+theorem generated_tables_ok : TablesOK Generated.tables := by
+  refine ⟨?_, by decide, by decide⟩
+  intro b hb
+  have hn : inRanges Generated.implByteSpace b.toNat = true := hb
+  have : b.toNat < 128 := by
+    simp only [Generated.implByteSpace, inRanges, List.any_cons, List.any_nil, Bool.or_false, Bool.or_eq_true,
+      Bool.and_eq_true, decide_eq_true_eq] at hn
+    omega
+  exact UInt8.lt_iff_toNat_lt.mpr this
+
+/-- **The tokenizer is total.** For every valid UTF-8 input and both values of `allow_dtd`, the
+tokenizer (with the tables of the current build) reaches no panic site — no `advance` assertion, no
+slice off a character boundary, no failing `unwrap` — and does not run out of fuel, i.e. all of its
+loops terminate: it returns `Ok` or an `Error`. -/
+theorem tokenizer_total (txt : Bytes) (hv : ValidUtf8 txt) (allowDtd : Bool) :
+    (∃ u, (tokenize Generated.tables txt allowDtd).2 = .ok u) ∨
+    (∃ e, (tokenize Generated.tables txt allowDtd).2 = .err e) := by
+  have h := (parseDocument_spec Generated.tables generated_tables_ok txt hv allowDtd).safe
+  unfold tokenize
+  cases hr : (parseDocument Generated.tables txt allowDtd).2 with
+  | ok u => exact Or.inl ⟨u, rfl⟩
+  | err e => exact Or.inr ⟨e, rfl⟩
+  | panic p => rw [hr] at h; exact absurd h (by simp [Res.Safe])
+  | fuel => rw [hr] at h; exact absurd h (by simp [Res.Safe])
+
+/-- Every token the tokenizer delivers carries strings that are slices of the input at their
+offsets and a source range inside the input. -/
+theorem tokens_are_slices (txt : Bytes) (hv : ValidUtf8 txt) (allowDtd : Bool) :
+    ∀ t ∈ (tokenize Generated.tables txt allowDtd).1, TokOk txt t :=
+  (parseDocument_spec Generated.tables generated_tables_ok txt hv allowDtd).toks
 
 end Rox.Props.C01
